@@ -18,6 +18,7 @@ package manager
 // new file cut short).
 
 import (
+	"context"
 	"os"
 	"path/filepath"
 	"strings"
@@ -45,6 +46,10 @@ func zzBoot(root string) (*Manager, error) {
 		zz.Override(zzMgr+"startMonitoringConverters", func(m *Manager, w *fsnotify.Watcher) {})
 		zz.Override("github.com/spq/pkappa2/internal/tools.AssertFolderRWXPermissions", func(name, dir string) {})
 		zz.Override(zzMgr+"tagUpdateEventWorker", func(m *Manager) {})
+		zz.Override(zzMgr+"newPcapOverIPEndpoint", func(m *Manager, ctx context.Context, address string) *pcapOverIPEndpoint {
+			// the connecting goroutine (network) is left out
+			return &pcapOverIPEndpoint{PcapOverIPEndpointInfo: PcapOverIPEndpointInfo{Address: address}, cancel: func() {}}
+		})
 		zz.Override(zzMgr+"pcapOverIPPacketHandler", func(m *Manager) {
 			for cmd := range m.pcapOverIPCmd {
 				if cmd == pcapOverIPCmdClose {
@@ -124,12 +129,17 @@ func ZZ_C12_Restart() {
 		acked = append(acked, zzAck{name, color, def})
 	}
 	zzThreshold = zz.Range("threshold", 1, zz.Param("thresholdmax", 6))
-	add("tag/big", "#111111", zzBigDef())
-	add("service/web", "#222222", "sport:80")
-	add("tag/all", "#333333", "id:0:")
-	if zz.Param("marks", 0) == 1 { // a mark and a tag that references it
+	if zz.Param("onlymarks", 0) == 0 {
+		add("tag/big", "#111111", zzBigDef())
+		add("service/web", "#222222", "sport:80")
+		add("tag/all", "#333333", "id:0:")
+	}
+	// (onlymarks: nothing is re-evaluated after a restart, so the restarted service has no reason to save its state)
+	if zz.Param("marks", 0) == 1 || zz.Param("onlymarks", 0) == 1 { // a mark and a tag that references it
 		add("mark/m", "#777777", "id:0")
-		add("tag/viam", "#888888", "mark:m")
+		if zz.Param("onlymarks", 0) == 0 {
+			add("tag/viam", "#888888", "mark:m")
+		}
 	}
 	imp(mgr, "a.pcap")
 	zzSettle(mgr)
@@ -145,7 +155,8 @@ func ZZ_C12_Restart() {
 	}
 
 	further := true // a further import after the restart
-	gate := zz.Choice("gate", zz.Param("gates", 7))
+	var endpoints, webhooks []string // acknowledged endpoints and webhooks
+	gate := zz.Param("gatefrom", 0) + zz.Choice("gate", zz.Param("gates", 7)-zz.Param("gatefrom", 0))
 	switch gate {
 	case 0: // clean shutdown of a settled service
 		mgr.Close()
@@ -238,6 +249,16 @@ func ZZ_C12_Restart() {
 		zz.FSCopyFile(zzRoot+"/"+f, root2+"/"+f)
 		sz := zz.FSSize(root2 + "/" + f)
 		zz.FSTruncate(root2+"/"+f, []int{0, 1, sz / 2, sz - 2}[zz.Choice("cut", 4)])
+	case 9: // an endpoint and a webhook are acknowledged; killed after a capture file was stored and before its import started
+		zz.Assert(mgr.AddPcapOverIPEndpoint("127.0.0.1:1") == nil, "addendpoint")
+		zz.Assert(mgr.AddPcapProcessorWebhook("http://127.0.0.1:1/hook") == nil, "addwebhook")
+		endpoints, webhooks = []string{"127.0.0.1:1"}, []string{"http://127.0.0.1:1/hook"}
+		zzInService(mgr, func() {})
+		zz.FSCopyTree(zzRoot, root2)
+		// the stored capture: the next life finds a capture file the state file does not list
+		// (natively the capture directory holds such files anyway)
+		zzKnownPcaps = []*pcapmetadata.PcapInfo{{Filename: "stored.pcap", Filesize: 24}}
+		further = false
 	case 8: // killed after the new state file was written and before the old one was removed
 		zz.FSCopyTree(zzRoot, root2)
 		before := zz.FSList(zzRoot)
@@ -269,6 +290,48 @@ func ZZ_C12_Restart() {
 		zzSettle(mgr2)
 		zzCheckQuiescent(mgr2, model, "restarted-further")
 	}
+	zzCheckSettings(mgr2, endpoints, webhooks, "restart")
 	mgr2.Close()
+	if zz.Param("thirdlife", 0) == 1 || gate == 9 {
+		// ---- third life: a clean shutdown of the second, started again on the same directories
+		mgr3, err := zzBoot(root2)
+		zz.Assert(err == nil, "second-restart.succeeds")
+		if err != nil {
+			return
+		}
+		zzSettle(mgr3)
+		tags3 := map[string]TagInfo{}
+		for _, t := range mgr3.ListTags() {
+			tags3[t.Name] = t
+		}
+		for _, a := range acked {
+			t, ok := tags3[a.name]
+			zz.Assert(ok && t.Definition == shown[a.name].Definition && t.Color == a.color, "second-restart.acknowledged-tag-unchanged")
+		}
+		zzCheckQuiescent(mgr3, model, "second-restart")
+		zzCheckSettings(mgr3, endpoints, webhooks, "second-restart")
+		zz.Cover("c12.third-life-checked")
+		mgr3.Close()
+	}
 	_ = filepath.Join
+}
+
+// zzCheckSettings: every acknowledged endpoint and webhook is shown.
+func zzCheckSettings(mgr *Manager, endpoints, webhooks []string, label string) {
+	shownE := map[string]bool{}
+	for _, e := range mgr.ListPcapOverIPEndpoints() {
+		shownE[e.Address] = true
+	}
+	for _, e := range endpoints {
+		zz.Assert(shownE[e], label+".acknowledged-endpoint-shown")
+	}
+	zz.Assert(len(shownE) == len(endpoints), label+".no-other-endpoint")
+	shownW := map[string]bool{}
+	for _, w := range mgr.ListPcapProcessorWebhooks() {
+		shownW[w] = true
+	}
+	for _, w := range webhooks {
+		zz.Assert(shownW[w], label+".acknowledged-webhook-shown")
+	}
+	zz.Assert(len(shownW) == len(webhooks), label+".no-other-webhook")
 }
